@@ -133,6 +133,7 @@ type Part struct {
 	Last     int64
 	Times    []TimeIndex // ascending
 	ListErr  int16       // error answered by ListOffsets for this partition (0 = none)
+	Epoch    int32       // current leader epoch: a ListOffsets v4+ request naming another epoch (≥ 0) is refused, −1 means "do not check"
 }
 
 type Topic struct {
@@ -542,7 +543,17 @@ func (c *Cluster) handle(broker int32, ver int16, msg protocol.Message) protocol
 		for _, t := range m.Topics {
 			rt := listoffsets.ResponseTopic{Topic: t.Topic}
 			for _, p := range t.Partitions {
-				rt.Partitions = append(rt.Partitions, c.listOffset(broker, t.Topic, p.Partition, p.Timestamp))
+				rp := c.listOffset(broker, t.Topic, p.Partition, p.Timestamp)
+				// Kafka validates the caller's current leader epoch from v4 on (−1 = no validation)
+				if ct, ok := c.Topics[t.Topic]; ok && ver >= 4 && rp.ErrorCode == 0 {
+					if cp, ok := ct.Parts[p.Partition]; ok && p.CurrentLeaderEpoch >= 0 && p.CurrentLeaderEpoch != cp.Epoch {
+						rp = listoffsets.ResponsePartition{Partition: p.Partition, Timestamp: -1, Offset: -1, LeaderEpoch: -1, ErrorCode: 74}
+						if p.CurrentLeaderEpoch > cp.Epoch {
+							rp.ErrorCode = 76
+						}
+					}
+				}
+				rt.Partitions = append(rt.Partitions, rp)
 			}
 			res.Topics = append(res.Topics, rt)
 		}
